@@ -22,7 +22,7 @@ func (c09) Size(tier string) Size {
 	return Size{Batches: 8, Cases: 900}
 }
 func (c09) Rule() string {
-	return "case = collection of 0..n resources (n <= 12 quick, <= 60 thorough) with unique IDs over random kinds, held as SoftCollection, WrapperCollection or Resources of soft / struct-backed resources; ID list = random subset (+ IDs not present) or empty; filter = nil or a well-typed tree from C10's generator; rules = list over attributes and id with and without '-', attribute values drawn from <= 3 distinct values so ties are common; every page 0..ceil(m/size)+1 for a random size (including 0) plus huge page numbers, and 3 shuffles of the input. Oracle = my own select / filter / stable-sort / slice; pages compared by rule-key tuples position by position (the library's sort need not be stable), exact ID sequence when the rules contain id, pages partition the matching set, result non-nil, input members and order unchanged. Non-trivial = >= 2 matching resources and a non-empty page; distinct = hash of the scenario."
+	return "case = collection of 0..n resources (n <= 12 quick, <= 60 thorough) with unique IDs over random kinds, held as SoftCollection, WrapperCollection or Resources of soft / struct-backed resources; ID list = random subset (+ IDs not present) or empty; filter = nil or a well-typed tree from C10's generator; rules = list over attributes and id with and without '-', attribute values drawn from <= 3 distinct values so ties are common; every page 0..ceil(m/size)+1 for a random size (including 0) plus huge page numbers, and 3 shuffles of the input. Oracle = my own select / filter / stable-sort / slice; pages compared by rule-key tuples position by position (the library's sort need not be stable), exact ID sequence when the rules contain id, pages partition the matching set, result non-nil, input members and order unchanged. Also: degenerate filters (the zero filter 'filter={}' decodes to, an operator without a field, case variants of and/or: each allows nothing), and directed collections of 1100-4200 resources with page sizes 1023, 1024, 1025, n-1, n, n+1 and 5000 (no silent cap). Non-trivial = >= 2 matching resources and a non-empty page; distinct = hash of the scenario."
 }
 func (c09) Assumptions() []string {
 	return []string{"'-' reverses the whole order of that rule, nil included (nil first ascending, last descending); false < true; rules after an id rule cannot matter",
@@ -207,6 +207,11 @@ func (m c09) Case(c *Ctx, r *RNG) {
 			probe = s.Res[r.Intn(len(s.Res))]
 		}
 		f := genTree(r, &s.Type, probe, r.Range(0, 3))
+		if r.Chance(1, 15) {
+			// the zero filter (what "filter={}" decodes to) and friends: a present filter that names no field
+			// allows nothing - it is not the same as no filter
+			f = []FSpec{{}, {Op: "="}, {Op: "AND", KidsVal: true}, {Op: "or"}}[r.Intn(4)]
+		}
 		s.Filter = &f
 	}
 	// rules
@@ -505,6 +510,24 @@ func (m c09) Directed(c *Ctx) {
 					m.run(c, s, r)
 				}
 			}
+		}
+	}
+	// large collections and page sizes around and beyond 1024 / 4096: no silent cap on size or on the number of matches
+	for hi, holder := range []string{"Resources-soft", "SoftCollection", "WrapperCollection", "Range-result"} {
+		n := []int{1300, 1100, 2100, 4200}[hi]
+		if c.Tier != "thorough" && hi >= 2 {
+			n = 1200
+		}
+		s := &c09scn{Type: TypeSpec{Name: "t", Attrs: []AttrSpec{{Name: "v", Kind: KInt}}, Rels: []RelSpec{{Name: "one", ToOne: true, ToType: "x"}, {Name: "many", ToType: "x"}}}, Holder: holder}
+		for i := 0; i < n; i++ {
+			s.Res = append(s.Res, &ResSpec{Type: "t", ID: fmt.Sprintf("r%05d", (i*7919)%n), Attrs: map[string]Val{"v": {K: KInt, I: fmt.Sprint((i * 31) % 97)}}, ToOne: map[string]string{"one": ""}, ToMany: map[string][]string{"many": {}}})
+		}
+		for _, size := range []uint{1023, 1024, 1025, uint(n - 1), uint(n), uint(n + 1), 5000} {
+			c.Name = fmt.Sprintf("large-%s-%d-size-%d", holder, n, size)
+			s.Size = size
+			s.Rules = [][]string{{"v"}, {"-v", "id"}, {}}[int(size)%3]
+			m.run(c, s, r)
+			c.Count("large_collections")
 		}
 	}
 }
